@@ -814,6 +814,18 @@ def gen_cases(chk, tier):
             data = gen_data(rng, s, nrows=int(rng.integers(1, 5)))
             s2, d2 = apply_fault(rng, kind, s, data)
             cases.append({"kind": "rt", "stream": "fault", "fault": kind, "schema": s2, "data": d2})
+    # (4b) every unparsable-cell kind once per run, systematically (cells whose Python type is a
+    #      subclass of the declared type's class -- a bool in an integer column -- included)
+    BAD = {"integer": ["abc", 0.5, True, False, 1 + 2j, "1.5", float("nan"), ""],
+           "float": ["abc", True, 1 + 2j, "1,5", ""], "complex": ["abc", False, "1+", "j2"]}
+    GOOD = {"integer": 3, "float": 2.5, "complex": 1 + 2j}
+    for t, bads in BAD.items():
+        for bad in bads:
+            for fill in ({"integer": "0", "float": "NaN", "complex": "NaN"}[t], {"integer": "1", "float": "1.0", "complex": "1j"}[t]):
+                s = {"delimiter": ",", "missing": "-", "fields": [{"name": "a", "type": t, "fill": fill},
+                                                                   {"name": "b", "type": "string", "fill": "x"}]}
+                cases.append({"kind": "rt", "stream": "fault", "fault": "cell_unparsable", "schema": s,
+                              "data": [[GOOD[t], bad, GOOD[t]], ["p", "q", "r"]]})
     # (5) edited files
     for kind in FILE_FAULTS:
         for k in range(4 * scale):
